@@ -241,3 +241,64 @@ Theorem C11_oracle_sound : forall (A : Type) (ops : app_ops A) (p : params),
 Proof. exact c11_oracle_sound. Qed.
 Print Assumptions C11_oracle_sound.
 
+
+(* ------------------------------------------------------------------------------------------ *)
+(* ORACLE SOUNDNESS of the ring-view monitor (Model/FdlRing.v: rmonitor, ring_poll, rule
+   P11_removal_passes_to_next - "after the removal of the silent successor the token goes to the cyclic
+   successor of the station in what is left of the previous list of active stations"; proofs in
+   Proofs/FdlRingSound.v).
+
+   ONE STEP, all station states, times, inputs, applications: whenever a poll of the model returns, the rule is
+   silent on the event the driver builds from it (poll_event) against the view of the state before the poll
+   (view_of).  The only hypothesis on the state: the ring bookkeeping runs under the station's own address
+   (r_ts = ts: a conjunct of the representation invariant Rep of C05, second statement).  No hypothesis on the
+   parameters, on the consistency of NS / PS with the LAS, or on the length of the LAS bit list. *)
+From PB Require Import FdlRing FdlRingSound.
+
+Theorem C11_ring_monitor_step_sound : forall (A : Type) (ops : app_ops A) (f : fdl) (now : Z) (busy : bool)
+    (rxb : bytes) (apps : list A) (f' : fdl) (o : phy_out) (apps' : list A) (calls : list call),
+  r_ts (f_ring f) = ts f ->
+  poll ops f now (mkPhyIn busy rxb) apps = Ok (f', o, apps', calls) ->
+  ring_poll (ts f) (view_of f) (poll_event now busy rxb f' o calls) = [].
+Proof. exact ring_step_sound. Qed.
+Print Assumptions C11_ring_monitor_step_sound.
+
+Theorem C11_ring_monitor_step_sound_rep : forall (A : Type) (ops : app_ops A) (n : nat) (f : fdl) (now : Z)
+    (busy : bool) (rxb : bytes) (apps : list A) (f' : fdl) (o : phy_out) (apps' : list A) (calls : list call),
+  Rep n f ->
+  poll ops f now (mkPhyIn busy rxb) apps = Ok (f', o, apps', calls) ->
+  ring_poll (ts f) (view_of f) (poll_event now busy rxb f' o calls) = [].
+Proof. exact ring_step_sound_rep. Qed.
+Print Assumptions C11_ring_monitor_step_sound_rep.
+
+(* TRANSCRIPTS: the monitor as the check runs it reports nothing on a transcript of the model - ALL parameters
+   (rmonitor itself only looks at builder-valid ones), any number of total applications, ALL admissible input
+   histories (API calls and polls in any order, strictly increasing times in range, received bytes are bytes).
+   Fewer hypotheses than C11_oracle_sound: neither builder_valid p nor app_sends_data is needed. *)
+Theorem C11_ring_monitor_sound : forall (A : Type) (ops : app_ops A) (p : params),
+  apps_total A ops ->
+  forall (apps : list A) (ins : list minput), ins_ok 0 ins ->
+  rmonitor p (model_transcript A ops p apps ins) = [].
+Proof. exact ring_monitor_sound. Qed.
+Print Assumptions C11_ring_monitor_sound.
+
+(* non-vacuity, computed: station 7 (builder-valid parameters, state satisfying Rep) with ring view {2, 7, 15}
+   supervises its third pass to 15; the poll after the slot time removes 15 and transmits the token 7 -> 2 (the
+   wrap-around).  The monitor accepts that event, and rejects the same event with the token 7 -> 7 (a
+   remove_station without the wrap-around); a further retry 7 -> 15 is not this rule's business. *)
+Example C11_ring_monitor_example :
+  builder_validb ex_ring_params = true /\ Rep 0 ex_ring_station /\
+  kind_of (f_state ex_ring_station) = KCheckTokenPass /\
+  v_active (view_of ex_ring_station) = [2; 7; 15] /\ v_ns (view_of ex_ring_station) = 15 /\
+  match poll unit_app_ops ex_ring_station 100000 (mkPhyIn false []) [] with
+  | Ok (f', o, _, calls) =>
+      tx o = Some (encode_token 2 7) /\ f_state f' = CheckTokenPass AttFirst /\
+      v_active (view_of f') = [2; 7] /\ v_ns (view_of f') = 2 /\
+      ring_poll 7 (view_of ex_ring_station) (poll_event 100000 false [] f' o calls) = [] /\
+      ring_poll 7 (view_of ex_ring_station)
+        (mkPStep 100000 false [] (Some (encode_token 7 7)) 0 [] (view_of f')) = [P11_removal_passes_to_next] /\
+      ring_poll 7 (view_of ex_ring_station)
+        (mkPStep 100000 false [] (Some (encode_token 15 7)) 0 [] (view_of f')) = []
+  | _ => False
+  end.
+Proof. exact ring_example. Qed.
